@@ -18,6 +18,7 @@ type Ctx struct {
 	Oracle string // directory of the reference fmt sources (default /verif/checker/oracle)
 	abuf   *ABuf
 	afmt   *AFmt
+	awrap  *AFmt
 	lab    *Labels
 }
 
